@@ -161,6 +161,12 @@ Lemma get_T16_wire c seq v tags :
 Proof. reflexivity. Qed.
 
 (* the Wire events of send_msg: none, or exactly the encoded message *)
+Lemma journal_tail_no_wire (m : msg) (n : Z) (wm : msg) w :
+  wires (re ((if skip_journal m then ret tt else persist_out n wm) w)) = [].
+Proof.
+  destruct (skip_journal m); [reflexivity|]. apply wires_nil. apply persist_out_allev.
+Qed.
+
 Lemma send_write_wires c m w :
   wires (re (send_write c m w)) = [] \/
   exists seq, wires (re (send_write c m w)) = [mkMsg (mtype m) (wire_tags c seq m)].
@@ -169,12 +175,10 @@ Proof.
   unfold encode. destruct (raw_seq m).
   - destruct (get T34 (mtags m)); [|left; reflexivity]. destruct (py_int s); [|left; reflexivity].
     msimp. destruct (wr w); msimp; [|left; reflexivity].
-    right. exists z. cbn [wires].
-    rewrite (wires_nil _ (persist_out_allev not_wire _ _ _)). reflexivity.
+    right. exists z. cbn [wires]. rewrite journal_tail_no_wire. reflexivity.
   - msimp.
     destruct (wr (set_nout (nout w + 1) w)) eqn:Ew; msimp; [|left; reflexivity].
-    right. exists (nout w). cbn [wires].
-    rewrite (wires_nil _ (persist_out_allev not_wire _ _ _)). reflexivity.
+    right. exists (nout w). cbn [wires]. rewrite journal_tail_no_wire. reflexivity.
 Qed.
 
 Lemma send_tail_wires c m w0 w :
@@ -498,22 +502,20 @@ Proof.
   revert w0 H0.
   enough (forall w0, awaiting w0 -> keeps awaiting
      ((if negb (st w0 =? ST_AWAITING) then state_set ST_HANDLING else ret tt) ;;;
-      b <- lift (get_int T7 m) ;; e0 <- lift (get_int T16 m) ;;
-      rows <- recover_out b (if e0 =? 0 then c_maxsize c else e0) ;;
-      w1 <- getw ;; set_seq_num (Some b) None ;;;
-      g <- replay_loop c rows b b ;;
+      b0 <- lift (get_int T7 m) ;; e0 <- lift (get_int T16 m) ;;
+      rows <- recover_out (if b0 <? 1 then 1 else b0) (if e0 =? 0 then c_maxsize c else e0) ;;
+      w1 <- getw ;;
+      g <- replay_loop c rows (if b0 <? 1 then 1 else b0) (if b0 <? 1 then 1 else b0) ;;
       (if nout w1 <? snd g then raise XAssertion else ret tt) ;;;
       (if fst g <? nout w1 then send_msg c (gap_fill (fst g) (z_to_dec (nout w1))) else ret tt) ;;;
-      set_seq_num (Some (nout w1)) None ;;;
       w2 <- getw ;; (if negb (st w2 =? ST_AWAITING) then state_set ST_ACTIVE else ret tt))) as H
     by (intros w0 H0; apply H; exact H0).
   intros w0 H0. unfold awaiting in H0.
   keeps_step. { rewrite H0. cbn. keeps_tac. }
   keeps_step; [keeps_tac|]. keeps_step; [keeps_tac|]. keeps_step; [apply Hr|].
-  keeps_step; [keeps_tac|]. keeps_step; [apply Hq|]. keeps_step; [apply replay_loop_awaiting|].
+  keeps_step; [keeps_tac|]. keeps_step; [apply replay_loop_awaiting|].
   keeps_step; [keeps_tac|].
   keeps_step; [destruct (_ <? _); [apply send_msg_keeps_awaiting|keeps_tac]|].
-  keeps_step; [apply Hq|].
   apply keeps_bind_getw. intros w2 H2 w ->. unfold awaiting in H2. rewrite H2. cbn. exact H2.
 Qed.
 
